@@ -211,6 +211,9 @@ package jsonrpc2
 //@   assert at call NewResponse: @echoes-request-id $0 == old(req.ID)
 //@   assert at call NewResponse: @unknown-method-code (errIs(old(err), ErrNotHandled) || errIs(old(err), ErrMethodNotFound)) ==> errIs($2, ErrMethodNotFound)
 //@   assert at call write: @unindexed-before-responding calls(unindex) == 1 && calls(respond) == 0 && $2 == iface(callResult(mkResponse, 1, 0))
+// The response goes out even when the request's own context has been cancelled (a cancelled call still gets its one
+// answer): the write is given a context that is never done, not the request context.
+//@   assert at call write: @the-answer-is-written-even-if-the-request-was-cancelled typeIs($1, notDone)
 //@   ensures @calls-are-answered-at-most-once isCall ==> calls(respond) <= 1 && calls(unindex) == 1 && calls(mkResponse) == 1
 //@   ensures @answered-unless-unencodable isCall && callResult(mkResponse, 1, 1) == nil ==> calls(respond) == 1
 //@   ensures @notifications-are-never-answered !isCall ==> calls(respond) == 0 && calls(unindex) == 0 && calls(mkResponse) == 0
